@@ -767,6 +767,7 @@ impl World {
             }
         }
         let mut left_snapshot: Vec<u64> = vec![];
+        let mut entered_replicate: Vec<u64> = vec![];
         {
             let default_cap = cfg.max_inflight;
             let l = self.nodes[i].live.as_mut().unwrap();
@@ -804,10 +805,27 @@ impl World {
                         left_snapshot.push(*pid);
                     }
                 }
+                // optimistic replication starts only on the follower's own acknowledgement
+                if same_lead && pre_st.is_some() && pre_st != Some(ProgressState::Replicate) && *st == ProgressState::Replicate {
+                    let ok = match kind {
+                        CallKind::Step(m) => m.from == *pid && m.get_msg_type() == MessageType::MsgAppendResponse && !m.reject,
+                        _ => false,
+                    };
+                    if !ok {
+                        entered_replicate.push(*pid);
+                    }
+                }
                 if responded == Some(*pid) {
                     f.probe_out = false;
                 }
             }
+        }
+        for pid in entered_replicate {
+            ctx.v(
+                "C13",
+                "progress entered Replicate state without an acknowledgement from the follower",
+                format!("leader {}: follower {} switched to Replicate state in a call that is not its own successful append response", id, pid),
+            );
         }
         for pid in left_snapshot {
             ctx.v(
